@@ -23,31 +23,58 @@ import (
 // ---------------------------------------------------------------------------
 // The property, stated on an observed history (independent of the Coq model).
 //
+// Every clock reading of the implementation is known to the monitor as a
+// bracket [lo, hi] that certainly contains it (lo == hi where the instant was
+// given to the code or recovered exactly from what it stored).
+//
 // An evaluated failure is "surely opening" when the address has no earlier
 // evaluated attempt, or the previous evaluated attempt was a success, or the
-// previous evaluated attempt lies more than max(ttl, block) (+slack) back.
-// If max consecutive evaluated failures start with a surely-opening one at t1,
-// all checked no later than t1+ttl(-slack), the last at tk, then every attempt
-// in [tk, tk+block(-slack)) must be rejected without evaluation.
+// previous evaluated attempt was counted more than max(ttl, block) before its
+// check.  If max consecutive evaluated failures start with a surely-opening
+// one counted at t1, all checked no later than t1+ttl, the last counted at tk,
+// then every attempt checked in [tk, tk+block) must be rejected without
+// evaluation: to the nanosecond, no rounding.  Conversely a rejection needs a
+// running block period: the last evaluated attempt of the address is a failure
+// counted less than one block before.
 
 type c12Ev struct {
-	now, now2 int64 // ns
-	ok        bool
+	lo, hi       int64 // ns: the instant check read lies in [lo, hi]
+	incLo, incHi int64 // ns: the instant inc read lies in [incLo, incHi]
+	ok           bool
 }
 
 type c12Mon struct {
-	max               int
-	ttl, block, slack int64
-	evs               map[string][]c12Ev // evaluated attempts per address
+	max        int
+	ttl, block int64
+	evs        map[string][]c12Ev // evaluated attempts per address
+	// the property is about timed histories: once an instant lies before one
+	// seen earlier (the limiter histories do that now and then, to compare the
+	// primitives there too) nothing is obliged any more
+	last     int64
+	backward bool
 }
 
-func newC12Mon(max int, block time.Duration, slack time.Duration) *c12Mon {
-	return &c12Mon{max: max, ttl: int64(failedAuthTTL), block: int64(block), slack: int64(slack), evs: map[string][]c12Ev{}}
+// see notes the clock readings of one attempt, in the order they were made.
+func (m *c12Mon) see(instants ...int64) {
+	for _, t := range instants {
+		if t < m.last {
+			m.backward = true
+		} else {
+			m.last = t
+		}
+	}
+}
+
+func newC12Mon(max int, block time.Duration) *c12Mon {
+	return &c12Mon{max: max, ttl: int64(failedAuthTTL), block: int64(block), evs: map[string][]c12Ev{}}
 }
 
 // mustReject reports whether the property obliges the limiter to reject an
-// attempt from addr at instant now.
-func (m *c12Mon) mustReject(addr string, now int64) (must bool, why string) {
+// attempt from addr whose check read an instant in [lo, hi].
+func (m *c12Mon) mustReject(addr string, lo, hi int64) (must bool, why string) {
+	if m.backward {
+		return false, ""
+	}
 	evs := m.evs[addr]
 	quiet := m.ttl
 	if m.block > quiet {
@@ -57,7 +84,7 @@ func (m *c12Mon) mustReject(addr string, now int64) (must bool, why string) {
 		if evs[i].ok {
 			continue
 		}
-		opening := i == 0 || evs[i-1].ok || evs[i].now-evs[i-1].now2 > quiet+m.slack
+		opening := i == 0 || evs[i-1].ok || evs[i].lo-evs[i-1].incHi > quiet
 		if !opening {
 			continue
 		}
@@ -67,24 +94,41 @@ func (m *c12Mon) mustReject(addr string, now int64) (must bool, why string) {
 		}
 		good := true
 		for k := i; k <= j; k++ {
-			if evs[k].ok || evs[k].now > evs[i].now2+m.ttl-m.slack {
+			if evs[k].ok || evs[k].hi > evs[i].incLo+m.ttl {
 				good = false
 			}
 		}
 		if !good {
 			continue
 		}
-		tk := evs[j].now2
-		if now >= tk && now < tk+m.block-m.slack {
-			return true, fmt.Sprintf("%d failures at %v..%v (first opens the record), attempt at %v is inside the block period of %v",
-				m.max, time.Duration(evs[i].now2), time.Duration(tk), time.Duration(now), time.Duration(m.block))
+		if lo >= evs[j].incHi && hi < evs[j].incLo+m.block {
+			return true, fmt.Sprintf("%d failures counted at %v..%v (first opens the record), the attempt at %v is %v before the end of the block period of %v",
+				m.max, time.Duration(evs[i].incLo), time.Duration(evs[j].incLo), time.Duration(hi), time.Duration(evs[j].incLo+m.block-hi), time.Duration(m.block))
 		}
 	}
 	return false, ""
 }
 
-func (m *c12Mon) record(addr string, now, now2 int64, ok bool) {
-	m.evs[addr] = append(m.evs[addr], c12Ev{now: now, now2: now2, ok: ok})
+// mayReject reports whether a rejection of an attempt from addr checked at lo
+// or later can be inside a block period at all.
+func (m *c12Mon) mayReject(addr string, lo int64) (may bool, why string) {
+	evs := m.evs[addr]
+	if len(evs) == 0 {
+		return false, "no attempt of this address was evaluated before"
+	}
+	last := evs[len(evs)-1]
+	if last.ok {
+		return false, "the last evaluated attempt of this address was a successful login"
+	}
+	if last.incHi+m.block <= lo {
+		return false, fmt.Sprintf("the last failure of this address was counted at %v, the block period of %v had elapsed %v before the attempt at %v",
+			time.Duration(last.incHi), time.Duration(m.block), time.Duration(lo-last.incHi-m.block), time.Duration(lo))
+	}
+	return true, ""
+}
+
+func (m *c12Mon) record(addr string, e c12Ev) {
+	m.evs[addr] = append(m.evs[addr], e)
 }
 
 // ---------------------------------------------------------------------------
@@ -114,7 +158,24 @@ type c12Att struct {
 	ok        bool
 	hname     string // proxy header to set ("" none), handleLogin histories only
 	hval      string
+	// handleLogin histories only: place the attempt at `off` from the deadline
+	// of the record of `target` ("" = addr) as it is when the attempt is made,
+	// instead of `now` after the previous one
+	edge   bool
+	off    int64
+	target string
 }
+
+// c12EdgeOffs: where an edge attempt is placed relative to a deadline of the
+// table (ns; negative = before it).  handleLogin reads the clock itself, so
+// the deadline itself and 1 ns either side cannot be hit through it (those
+// instants are given to cleanupLocked / checkLocked / incLocked directly in
+// the limiter histories); these are the offsets a real clock can be trusted
+// with once the call is bracketed by two readings.
+var c12EdgeOffs = []int64{-int64(1001 * time.Millisecond), -int64(999 * time.Millisecond), -int64(600 * time.Millisecond),
+	-int64(100 * time.Millisecond), -int64(10 * time.Millisecond), -int64(time.Millisecond), -int64(200 * time.Microsecond),
+	int64(200 * time.Microsecond), int64(time.Millisecond), int64(10 * time.Millisecond), int64(100 * time.Millisecond),
+	int64(600 * time.Millisecond), int64(1001 * time.Millisecond)}
 
 // c12Trusted: the trusted_proxies of the handleLogin histories.
 var c12Trusted = []netip.Prefix{netip.MustParsePrefix("127.0.0.0/8"), netip.MustParsePrefix("10.0.0.0/8"), netip.MustParsePrefix("::1/128")}
@@ -149,7 +210,7 @@ func c12LimFlow(out *vfOut, name string, max uint, block time.Duration, n int,
 	rel := func(t time.Time) int64 { return int64(t.Sub(base)) }
 	at := func(d int64) time.Time { return base.Add(time.Duration(d)) }
 	ab := newAuthRateLimiter(block, max)
-	mon := newC12Mon(int(max), block, 0)
+	mon := newC12Mon(int(max), block)
 	var steps, desc []string
 	classes := map[string]bool{}
 	monOK, monMsg := true, ""
@@ -168,8 +229,12 @@ func c12LimFlow(out *vfOut, name string, max uint, block time.Duration, n int,
 		left := ab.checkLocked(a.addr, at(a.now))
 		add(vfApp("C12.LCheck", vfZ(a.now), vfBytes(a.addr), vfZ(int64(left))))
 		rejected := left > 0
-		if must, why := mon.mustReject(a.addr, a.now); must && !rejected {
+		mon.see(a.now)
+		if must, why := mon.mustReject(a.addr, a.now, a.now); must && !rejected {
 			monOK, monMsg = false, "attempt evaluated inside the block period: "+why
+		}
+		if may, why := mon.mayReject(a.addr, a.now); rejected && !may {
+			monOK, monMsg = false, "attempt rejected outside any block period: "+why
 		}
 		d := fmt.Sprintf("%v %s ok=%v", time.Duration(a.now), a.addr, a.ok)
 		switch {
@@ -183,13 +248,14 @@ func c12LimFlow(out *vfOut, name string, max uint, block time.Duration, n int,
 			}
 			ab.remove(a.addr)
 			add(vfApp("C12.LRemove", vfBytes(a.addr)))
-			mon.record(a.addr, a.now, a.now2, true)
+			mon.record(a.addr, c12Ev{lo: a.now, hi: a.now, incLo: a.now2, incHi: a.now2, ok: true})
 			d += " -> evaluated, removed"
 		default:
 			classes["lim-not-blocked"] = true
 			ab.incLocked(a.addr, at(a.now2))
+			mon.see(a.now2)
 			add(vfApp("C12.LInc", vfZ(a.now2), vfBytes(a.addr)))
-			mon.record(a.addr, a.now, a.now2, false)
+			mon.record(a.addr, c12Ev{lo: a.now, hi: a.now, incLo: a.now2, incHi: a.now2})
 			switch num := ab.failedAuths[a.addr].num; {
 			case num == max:
 				classes["lim-reach-max"] = true
@@ -267,7 +333,10 @@ func c12NextTime(rnd *vfRand, ab *authRateLimiter, rel func(time.Time) int64, cu
 	sort.Strings(keys)
 	for _, k := range keys {
 		u := rel(ab.failedAuths[k].until)
-		cands = append(cands, u-1, u, u, u+1, u-rnd.Range(0, int64(time.Second)))
+		cands = append(cands, u-1, u, u, u+1, u-rnd.Range(0, int64(time.Second)),
+			// class "edge-offset": the last second of a block period / window
+			u-int64(time.Second)-1, u-int64(time.Second), u-int64(time.Second)+1, u-int64(999*time.Millisecond),
+			u-int64(600*time.Millisecond), u+int64(time.Second))
 	}
 	for tries := 0; tries < 8; tries++ {
 		t := cands[rnd.Intn(len(cands))]
@@ -312,6 +381,18 @@ func c12Prelude() []c12Script {
 		{"max-one", 1, time.Second, []c12Att{
 			mk(0, a, false), mk(1, a, true), mk(c12S(1)-1, a, true), mk(c12S(1), a, true), mk(c12S(1), a, false),
 			mk(c12S(2)+1, a, false)}},
+		// time resolution: the last second of the block period, the correct
+		// password every time (block ends at 20 s + 15 min)
+		{"block-last-second", 3, 15 * time.Minute, []c12Att{
+			mk(0, a, false), mk(c12S(10), a, false), mk(c12S(20), a, false),
+			mk(c12S(20)+blk-c12S(1)-1, a, true), mk(c12S(20)+blk-c12S(1), a, true), mk(c12S(20)+blk-c12S(1)+1, a, true),
+			mk(c12S(20)+blk-c12S(0.999), a, true), mk(c12S(20)+blk-c12S(0.6), a, true), mk(c12S(20)+blk-c12S(0.6), b, false),
+			mk(c12S(20)+blk-1, a, true), mk(c12S(20)+blk, a, true), mk(c12S(20)+blk+1, a, false)}},
+		// ... and of the one-minute window (record opened at 0, lapses after 60 s)
+		{"window-last-second", 3, 15 * time.Minute, []c12Att{
+			mk(0, a, false), mk(c12S(59)-1, a, false), mk(c12S(60), a, false), mk(c12S(60)+1, a, true),
+			mk(c12S(100), b, false), mk(c12S(159.4), b, false), mk(c12S(160)+1, b, false), mk(c12S(161), b, false), mk(c12S(162), b, false),
+			mk(c12S(162)+blk-c12S(0.6), b, true), mk(c12S(162)+blk, b, true)}},
 		{"late-inc", 2, 30 * time.Second, []c12Att{
 			{now: 0, now2: c12S(0.2), addr: a}, {now: c12S(60.1), now2: c12S(60.3), addr: a},
 			{now: c12S(60.2) + 1, now2: c12S(60.4), addr: a, ok: true}, {now: c12S(90.3) - 1, now2: c12S(91), addr: a, ok: true},
@@ -384,7 +465,8 @@ func c12LoginHistory(t *testing.T, out *vfOut, rnd *vfRand, users []webUser, nam
 	RegisterAuthHandlers()
 
 	const margin = 2 * time.Second
-	const tol = time.Second
+	const tol = time.Duration(0)          // the model's table is the real one to the nanosecond (ls_now2)
+	const maxCall = 500 * time.Millisecond // a call that took longer is not judged
 	start := time.Now()
 	shift := int64(0)
 	vnow := func() int64 { return int64(time.Since(start)) + shift }
@@ -400,7 +482,7 @@ func c12LoginHistory(t *testing.T, out *vfOut, rnd *vfRand, users []webUser, nam
 		}
 		shift += d
 	}
-	mon := newC12Mon(int(max), block, margin)
+	mon := newC12Mon(int(max), block)
 	var steps, desc []string
 	classes := map[string]bool{}
 	monOK, monMsg, key := true, "", ""
@@ -414,8 +496,10 @@ func c12LoginHistory(t *testing.T, out *vfOut, rnd *vfRand, users []webUser, nam
 		var ok bool
 		kind := 0
 		var d int64
+		edge, off, target := false, int64(0), ""
 		if script != nil {
 			addr, ok, d = script[i].addr, script[i].ok, script[i].now
+			edge, off, target = script[i].edge, script[i].off, script[i].target
 			if script[i].now2 == 1 {
 				kind = 1
 			}
@@ -436,9 +520,36 @@ func c12LoginHistory(t *testing.T, out *vfOut, rnd *vfRand, users []webUser, nam
 			if d < 0 {
 				d = 0
 			}
+			// class "edge-offset": the attempt is placed a fraction of a
+			// second before or after a deadline of the table: the end of the
+			// address' own block period or window (2 of 3), or a deadline of
+			// another address (cleanup)
+			own, hasOwn := tab()[addr]
+			blocking := hasOwn && max >= 1 && own.num >= max
+			if len(tab()) > 0 && (rnd.Chance(2, 5) || (blocking && rnd.Chance(1, 2))) {
+				keys := make([]string, 0, len(tab()))
+				for k := range tab() {
+					keys = append(keys, k)
+				}
+				sort.Strings(keys)
+				target = keys[rnd.Intn(len(keys))]
+				if hasOwn && (blocking || rnd.Chance(2, 3)) {
+					target = addr
+				}
+				edge, off = true, c12EdgeOffs[rnd.Intn(len(c12EdgeOffs))]
+				if rnd.Chance(1, 4) {
+					off = rnd.Range(-int64(1200*time.Millisecond), int64(1200*time.Millisecond))
+				}
+				if rnd.Chance(1, 2) {
+					ok = true // the correct password is the one that matters inside the last second
+				}
+			}
 		}
-		// keep every boundary at least `margin` away from the attempt
-		for tries := 0; tries < 10; tries++ {
+		if target == "" {
+			target = addr
+		}
+		// keep every boundary at least `margin` away from a plain attempt
+		for tries := 0; tries < 10 && !edge; tries++ {
 			v := vnow() + d
 			clash := false
 			for _, r := range tab() {
@@ -451,7 +562,6 @@ func c12LoginHistory(t *testing.T, out *vfOut, rnd *vfRand, users []webUser, nam
 			}
 			d += int64(2 * margin)
 		}
-		advance(d)
 		body := fmt.Sprintf(`{"name":%q,"password":%q}`, c12User, c12Pass)
 		if !ok {
 			switch rnd.Intn(5) {
@@ -523,23 +633,59 @@ func c12LoginHistory(t *testing.T, out *vfOut, rnd *vfRand, users []webUser, nam
 		if strings.Contains(addr, ":") {
 			req.RemoteAddr = "[" + addr + "]:40000"
 		}
-		recBefore, hadBefore := tab()[addr]
-		nsessBefore := len(auth.sessions)
-		v0 := vnow()
-		// the machine may have stalled since the instant was chosen: no
-		// deadline of the table may lie near the instant actually used
-		for _, r := range tab() {
-			if x := rel(r.until) - v0; x > -int64(margin)/2 && x < int64(margin)/2 {
-				out.Class("login-discarded-jitter")
-				return
+		// the clock moves (every stored deadline moves back) only now, with the
+		// request ready: for an edge attempt by what is left, at this moment,
+		// until the chosen deadline plus the offset (never backwards)
+		if edge {
+			d = 0
+			if r, has := tab()[target]; has {
+				if x := rel(r.until) + off - vnow(); x > 0 {
+					d = x
+				}
 			}
 		}
+		advance(d)
+		recBefore, hadBefore := tab()[addr]
+		nsessBefore := len(auth.sessions)
+		deadlines := map[string]int64{}
+		for k, r := range tab() {
+			deadlines[k] = rel(r.until)
+		}
 		w := httptest.NewRecorder()
+		// the code reads the clock itself (check, then inc): both readings lie
+		// between these two
+		v0 := vnow()
 		globalContext.mux.ServeHTTP(w, req)
 		v1 := vnow()
-		if v1-v0 > int64(tol)/2 {
-			out.Class("login-discarded-jitter")
-			return
+		// judged only if every instant of [v0, v1] gives the same decisions:
+		// no deadline of the table inside the bracket (1 us either side), and
+		// the call did not stall.  Otherwise the history ends before this
+		// attempt: what was observed so far is emitted, this attempt is not.
+		dubious := v1-v0 > int64(maxCall)
+		for _, u := range deadlines {
+			if u >= v0-1000 && u <= v1+1000 {
+				dubious = true
+			}
+		}
+		if dubious {
+			out.Class("login-truncated-jitter")
+			break
+		}
+		for k, u := range deadlines {
+			near := u-v0 < int64(time.Second) && v1-u < int64(time.Second)
+			switch {
+			case !near:
+			case k != addr:
+				classes["login-edge-other-address"] = true
+			case max >= 1 && recBefore.num >= max && u > v1:
+				classes["login-edge-last-second"] = true
+			case max >= 1 && recBefore.num >= max:
+				classes["login-edge-just-elapsed"] = true
+			case u > v1:
+				classes["login-edge-window-inside"] = true
+			default:
+				classes["login-edge-window-lapsed"] = true
+			}
 		}
 		status := w.Code
 		retry := int64(-1)
@@ -547,13 +693,46 @@ func c12LoginHistory(t *testing.T, out *vfOut, rnd *vfRand, users []webUser, nam
 			retry, _ = strconv.ParseInt(s, 10, 64)
 		}
 		nsess := len(auth.sessions)
-		steps = append(steps, fmt.Sprintf("{| C12.ls_kind := %s; C12.ls_now := %s; C12.ls_addr := %s; C12.ls_hdr := %s; C12.ls_trusted := %s; C12.ls_ok := %s; C12.ls_status := %s; C12.ls_retry := %s; C12.ls_nsess := %s; C12.ls_tab := %s |}",
-			vfZ(int64(kind)), vfZ(v0), vfBytes(addr), hdrCoq, vfBool(hdrTrusted), vfBool(ok), vfZ(int64(status)), vfZ(retry), vfN(uint64(nsess)), c12LTable(ab, rel)))
 		hd := ""
 		if hname != "" {
 			hd = fmt.Sprintf(" [%s: %s]", hname, hval)
 		}
-		desc = append(desc, fmt.Sprintf("+%v (t=%v) %s%s ok=%v kind=%d -> %d retry=%d", time.Duration(d), time.Duration(v0).Round(time.Millisecond), addr, hd, ok, kind, status, retry))
+		// the instant inc read, recovered from the deadline this step wrote:
+		// the code stores now+blockDur or now+failedAuthTTL
+		recAfter, hadAfter := tab()[addr]
+		incLo, incHi := v0, v1
+		if hadAfter && (!hadBefore || !recAfter.until.Equal(recBefore.until)) {
+			u := rel(recAfter.until)
+			byBlock, byTTL := u-int64(block), u-int64(failedAuthTTL)
+			inB, inT := byBlock >= v0 && byBlock <= v1, byTTL >= v0 && byTTL <= v1
+			switch {
+			case inB && inT && byBlock != byTTL:
+				// (block and window differ by less than the call took)
+				out.Class("login-truncated-jitter")
+				dubious = true
+			case inB:
+				incLo, incHi = byBlock, byBlock
+			case inT:
+				incLo, incHi = byTTL, byTTL
+			default:
+				fail("login-deadline", fmt.Sprintf("attempt %d from %s%s between %v and %v: the record's deadline became %v, which is neither one block period (%v) nor one window (%v) after an instant of the call",
+					i, addr, hd, time.Duration(v0), time.Duration(v1), time.Duration(u), block, failedAuthTTL))
+			}
+		}
+		if dubious {
+			break
+		}
+		now2 := v0
+		if incLo == incHi {
+			now2 = incLo
+		}
+		steps = append(steps, fmt.Sprintf("{| C12.ls_kind := %s; C12.ls_now := %s; C12.ls_now_hi := %s; C12.ls_now2 := %s; C12.ls_addr := %s; C12.ls_hdr := %s; C12.ls_trusted := %s; C12.ls_ok := %s; C12.ls_status := %s; C12.ls_retry := %s; C12.ls_nsess := %s; C12.ls_tab := %s |}",
+			vfZ(int64(kind)), vfZ(v0), vfZ(v1), vfZ(now2), vfBytes(addr), hdrCoq, vfBool(hdrTrusted), vfBool(ok), vfZ(int64(status)), vfZ(retry), vfN(uint64(nsess)), c12LTable(ab, rel)))
+		where := ""
+		if u, has := deadlines[target]; has && edge {
+			where = fmt.Sprintf(" [placed %v from the deadline of %s: call began %v and ended %v from it]", time.Duration(off), target, time.Duration(v0-u), time.Duration(v1-u))
+		}
+		desc = append(desc, fmt.Sprintf("+%v (t=%v) %s%s ok=%v kind=%d%s -> %d retry=%d", time.Duration(d), time.Duration(v0), addr, hd, ok, kind, where, status, retry))
 		// the table must hold peer addresses only
 		for k := range tab() {
 			peer := false
@@ -570,7 +749,6 @@ func c12LoginHistory(t *testing.T, out *vfOut, rnd *vfRand, users []webUser, nam
 		}
 		// the property
 		rejected := status == http.StatusTooManyRequests
-		recAfter, hadAfter := tab()[addr]
 		if rejected {
 			if ok {
 				classes["login-429-correct-password"] = true
@@ -580,6 +758,20 @@ func c12LoginHistory(t *testing.T, out *vfOut, rnd *vfRand, users []webUser, nam
 			}
 			if retry < 0 {
 				fail("login-429-no-retry-after", "429 without Retry-After")
+			} else if hadBefore {
+				// the time left in whole seconds, rounded down, for some
+				// instant of the call
+				rlo, rhi := (deadlines[addr]-v1)/int64(time.Second), (deadlines[addr]-v0)/int64(time.Second)
+				if retry < rlo || retry > rhi {
+					fail("login-retry-after-value", fmt.Sprintf("attempt %d: Retry-After: %d with %v..%v of the block period left", i, retry,
+						time.Duration(deadlines[addr]-v1), time.Duration(deadlines[addr]-v0)))
+				}
+				if retry == 0 {
+					classes["login-429-retry-after-zero"] = true // observation: sent during the last second
+				}
+			}
+			if may, why := mon.mayReject(addr, v0); !may {
+				fail("login-rejected-outside-block", fmt.Sprintf("attempt %d from %s answered 429 outside any block period: %s", i, addr, why))
 			}
 		} else {
 			if status != http.StatusOK && status != http.StatusForbidden {
@@ -592,11 +784,11 @@ func c12LoginHistory(t *testing.T, out *vfOut, rnd *vfRand, users []webUser, nam
 				fail("login-session-count", fmt.Sprintf("status %d but sessions %d->%d", status, nsessBefore, nsess))
 			}
 		}
-		if must, why := mon.mustReject(addr, v0); must && !rejected {
-			fail("login-block-period", "login evaluated inside the block period: "+why)
+		if must, why := mon.mustReject(addr, v0, v1); must && !rejected {
+			fail("login-block-period", fmt.Sprintf("login evaluated inside the block period (attempt %d from %s, answered %d): %s", i, addr, status, why))
 		}
 		if !rejected {
-			mon.record(addr, v0, v1, status == http.StatusOK)
+			mon.record(addr, c12Ev{lo: v0, hi: v1, incLo: incLo, incHi: incHi, ok: status == http.StatusOK})
 		}
 	}
 	c := vfCase{
@@ -1174,6 +1366,27 @@ func TestVerifC12(t *testing.T) {
 		{now: 0, addr: a, hname: "X-Real-IP", hval: "10.0.0.1"}, {now: s, addr: a, ok: true, hname: "X-Real-IP", hval: "10.0.0.2"},
 		{now: s, addr: a, hname: "X-Real-IP", hval: "10.0.0.3"}, {now: s, addr: a, hname: "X-Real-IP", hval: "10.0.0.1"},
 		{now: s, addr: a, ok: true, hname: "X-Real-IP", hval: "10.0.0.4"}})
+	// round 4, time resolution: attempts a fraction of a second before and
+	// after the end of the block period and of the window, through the real
+	// handler; placed relative to the stored deadline right before the call
+	ms := int64(time.Millisecond)
+	eg := func(off int64, addr string, ok bool) c12Att { return c12Att{addr: addr, ok: ok, edge: true, off: off} }
+	c12LoginHistory(t, out, vfNewRand(11), users, "prelude/block-edge-offsets", 2, 30*time.Second, 13, []c12Att{
+		{now: 0, addr: a}, {now: s, addr: a},
+		eg(-1001*ms, a, true), eg(-999*ms, a, true), eg(-600*ms, a, true), eg(-100*ms, a, false), eg(-10*ms, a, true), eg(-ms, a, true),
+		eg(ms/2, a, false), // just elapsed: evaluated, counted, blocked again
+		eg(-600*ms, a, true), eg(ms, a, true), // just elapsed: logs in, record cleared
+		{now: s, addr: a}, {now: s, addr: a, ok: true}})
+	c12LoginHistory(t, out, vfNewRand(12), users, "prelude/window-edge-offsets", 3, 15*time.Minute, 10, []c12Att{
+		{now: 0, addr: a}, eg(-100*ms, a, false), // inside the window: counted (2)
+		{now: 0, addr: c12Addrs[1]}, {addr: c12Addrs[1], edge: true, off: 2 * ms, target: a}, // another address 2 ms after a's window lapsed: cleanup drops a's record
+		{now: s, addr: a}, eg(ms, a, false), // a's new window lapsed 1 ms ago: a new record
+		eg(-600*ms, a, false), eg(-10*ms, a, false), // inside: 2, 3 = limit
+		eg(-999*ms, a, true), eg(ms, a, true)})
+	c12InitCfg = &[2]uint{2, 1}
+	c12LoginHistory(t, out, vfNewRand(13), users, "prelude/initUsers-edge-offsets", 0, 0, 7, []c12Att{
+		{now: s, addr: a}, {now: s, addr: a}, eg(-999*ms, a, true), eg(-600*ms, a, true), eg(-100*ms, a, false), eg(ms, a, false), eg(-600*ms, a, true)})
+	c12InitCfg = nil
 	// round 3: the limiter as the real initUsers builds it.  Every
 	// configuration of {0,1,2,5} x {0,1,2,15}: a burst of failures from one
 	// address, a wrong and the correct password right after it, another
